@@ -178,6 +178,12 @@ var commonInitialisms = []string{"ACL", "API", "ASCII", "CPU", "CSS", "DNS", "EO
 
 // Given an entirely uppercase string, extract any initialisms sequentially from the start of the string and return them with the remainder of the string
 func extractInitialisms(s string) []string {
+	// If the whole string splits into known initialisms, prefer that split,
+	// so initialisms that have another one as a prefix (HTTPS/HTTP, UID/UI)
+	// are recognized.
+	if segmented := segmentInitialisms(s); len(segmented) > 0 {
+		return segmented
+	}
 	words := []string{}
 
 	for {
@@ -199,6 +205,23 @@ func extractInitialisms(s string) []string {
 	}
 
 	return words
+}
+
+// segmentInitialisms splits s into a sequence of common initialisms that covers
+// the entire string, or returns nil if there is no such split.
+func segmentInitialisms(s string) []string {
+	if len(s) == 0 {
+		return []string{}
+	}
+	for _, initialism := range commonInitialisms {
+		if !strings.HasPrefix(s, initialism) {
+			continue
+		}
+		if rest := segmentInitialisms(s[len(initialism):]); rest != nil {
+			return append([]string{strings.ToLower(initialism)}, rest...)
+		}
+	}
+	return nil
 }
 
 func decodeLowerCaseWithSplitChar(splitChar rune, typeName, s string) (DecodedIdentifier, error) {
